@@ -199,7 +199,7 @@ func ruleC06HeaderBeforeContent(c *Ctx) {
 					continue
 				}
 				obj := objOfIdent(info, x)
-				for _, nd := range b.Nodes {
+				for _, nd := range fl.condNodes(b) {
 					as, ok := nd.(*ast.AssignStmt)
 					if !ok || len(as.Rhs) != 1 || obj == nil {
 						continue
